@@ -148,7 +148,37 @@ def sbytes_attr(interp, b, name):
     interp.py_raise(AttributeError, name)
 
 
+class LazySplit:
+    """result of bytes.split(sep) on symbolic bytes; element 0 is computed by case analysis on the
+    position of the first separator (n+1 cases) instead of splitting everything (2^n cases)."""
+
+    def __init__(self, interp, b, sep):
+        self.interp = interp
+        self.b = b
+        self.sep = sep
+        self.full = None
+
+    def first(self):
+        s = self.sep[0]
+        items = self.b.items
+        for i, x in enumerate(items):
+            if self.interp.test(x == s):
+                return mk_bytes(items[:i])
+        return mk_bytes(items)
+
+    def all(self):
+        if self.full is None:
+            self.full = sbytes_split_full(self.interp, self.b, self.sep, -1)
+        return self.full
+
+
 def sbytes_split(interp, b, sep, maxsplit=-1):
+    if isinstance(sep, (bytes, bytearray)) and len(sep) == 1 and maxsplit == -1:
+        return LazySplit(interp, b, sep)
+    return sbytes_split_full(interp, b, sep, maxsplit)
+
+
+def sbytes_split_full(interp, b, sep, maxsplit=-1):
     if not isinstance(sep, (bytes, bytearray)) or len(sep) != 1:
         raise Unsupported("bytes.split with separator %r on symbolic bytes" % (sep,))
     s = sep[0]
@@ -199,11 +229,10 @@ def sbytes_decode(interp, b, encoding="utf-8", errors="strict"):
     items = list(b.items) if isinstance(b, SBytes) else list(b)
     if encoding.lower().replace("-", "") not in ("ascii", "usascii"):
         raise Unsupported("decode(%r) of symbolic bytes" % encoding)
-    for x in items:
-        if interp.test(x >= 128):
-            e = UnicodeDecodeError("ascii", b"\xff", 0, 1, "ordinal not in range(128)")
-            from .path import RaiseEx
-            raise RaiseEx(e)
+    if items and interp.test(Or([x >= 128 for x in items])):
+        e = UnicodeDecodeError("ascii", b"\xff", 0, 1, "ordinal not in range(128)")
+        from .path import RaiseEx
+        raise RaiseEx(e)
     if not contains_sym(items):
         return bytes(items).decode("ascii")
     return SText(items)
@@ -429,6 +458,10 @@ def get_item(interp, o, k):
         interp.py_raise(TypeError, "'%s' object is not subscriptable" % o.cls.__name__)
     if isinstance(o, AnyOf):
         raise Unsupported("subscript of an unspecified value")
+    if isinstance(o, LazySplit):
+        if isinstance(k, int) and k == 0:
+            return o.first()
+        return get_item(interp, o.all(), k)
     if isinstance(o, (list, tuple, SBytes, bytes, bytearray, str, SText)):
         items = o.items if isinstance(o, SBytes) else (o.codes if isinstance(o, SText) else o)
         if isinstance(k, slice):
@@ -901,6 +934,21 @@ def b_abs(interp, v):
     return interp.native(abs, v)
 
 
+def b_pow(interp, base, exp, mod=None):
+    if mod is not None:
+        raise Unsupported("3-argument pow")
+    if is_sym(exp):
+        exp = sym.ctx().choose_int(exp, "exponent")
+    if is_sym(base):
+        if isinstance(exp, int) and 0 <= exp <= 8:
+            r = 1
+            for _ in range(exp):
+                r = r * base
+            return r
+        raise Unsupported("power of a symbolic base")
+    return interp.native(pow, base, exp)
+
+
 def b_print(interp, *args, **kwargs):
     for a in args:
         interp.py_str(a)
@@ -1305,7 +1353,7 @@ BUILTIN_MODELS = {
     getattr: b_getattr, setattr: b_setattr, max: b_max, min: b_min, sum: b_sum, any: b_any,
     all: b_all, abs: b_abs, print: b_print, iter: b_iter, next: b_next, callable: b_callable,
     id: b_id, hash: b_hash, format: b_format, divmod: b_divmod, hex: b_hex, ord: b_ord, chr: b_chr,
-    round: b_round, sorted: b_sorted, repr: b_repr,
+    round: b_round, sorted: b_sorted, repr: b_repr, pow: b_pow,
     functools.reduce: b_reduce,
     struct.pack: struct_pack, struct.unpack: struct_unpack, struct.unpack_from: struct_unpack_from,
     int.from_bytes: None,   # placeholder: handled in lookup_builtin (bound classmethod objects differ)
